@@ -27,7 +27,7 @@ CHECKS = {
    "DESIGN.md §3 C07"),
  "C06": ("model_checking",
    "explicit-state BFS over the product of the real mutator and the real incremental collector (per-object mark/sweep micro-steps), invariant checked in every state",
-   "For each program (a purpose-written family, generated heap programs, and the move family: 6 store kinds x 4 ways of dropping the source reference x 2 declaration orders) the search explores every interleaving of single VM instructions with single collector steps (start cycle, mark one grey object, sweep one object, per green thread, up to 2/3 cycles per thread) on the real VM in manual-GC + quarantine mode; an independent reachability walk must find no reclaimed reachable object in any state, no access may touch a reclaimed object, and every maximal path must produce the outcome of the collection-disabled run. Any real pacing is a coarsening of these micro-steps.",
+   "For each program (a purpose-written family, generated heap programs, the move family: 6 store kinds x 4 ways of dropping the source reference x 2 declaration orders, and the wrap family: the moved object wrapped in a newly allocated variant / array / tuple / struct) the search explores every interleaving of single VM instructions with single collector steps (start cycle, mark one grey object, sweep one object, per green thread, up to 2/3 cycles per thread) on the real VM in manual-GC + quarantine mode; an independent reachability walk must find no reclaimed reachable object in any state, no access may touch a reclaimed object, and every maximal path must produce the outcome of the collection-disabled run. Any real pacing is a coarsening of these micro-steps.",
    "Bounded: the listed programs (20-130 instructions each) and 2/3 cycles per thread; hooks H3 (feature verif) are trusted to call the real start_mark_phase/process_gray/sweep and to quarantine instead of free; state merging on (mutator step count, collector fingerprint) is checked at every merge.",
    "DESIGN.md §3 C06"),
  "C15": ("exploration",
@@ -84,10 +84,10 @@ CHECKS.update({
           "Rust byte-wise concatenation and lexicographic order; no reclaimed object reachable or touched in any state.",
           "Structured set instead of random strings; the full mutator x collector interleaving search for string temporaries is part of C06.", "DESIGN.md §3 C17", "model_checking",
           "exhaustive pairs x operand forms under enumerated budget schedules (uniform and deviation-bounded) and enumerated collection windows driven through the schedulable-collector hooks"),
- "C03": U("all programs `context^k x payload` (k <= 2 quick / 3 thorough; contexts fn, member fn, lambda, task, while, for, match arm, if, operand block, while-condition block, for-iterable block, if-condition block, match-scrutinee block; 27 payload kinds incl. break/continue/return/?/!, assignments to outer variables/fields/elements/user-Index, tasks, lambdas, scrutinee-only uses, user Num operators), each compiled standalone;",
+ "C03": U("all programs `context^k x payload` (k <= 2 quick / 3 thorough; contexts fn, member fn, lambda, task, while, for, match arm, if, operand block, while-condition block, for-iterable block, if-condition block, match-scrutinee block; 29 payload kinds incl. break/continue/return/?/!, assignments to outer variables/fields/elements/user-Index, element and field assignments whose index expression binds a name, tasks, lambdas, scrutinee-only uses, user Num operators), each compiled standalone;",
           "check() gives diagnostics, or check() is Ok and compile_bytecode() is Ok and the program runs under budget 1 without a VM fault; a sanity guard requires the no-op payload to be accepted in every context.",
           "Bounded nesting depth; four constructs the checker lets through but the translator does not implement are open known findings keyed by payload kind + failure class (known_findings.json).", "DESIGN.md §3 C03"),
- "C12": U("all arm lists up to length 2-3 (quick) / 2-4 (thorough) over 5-58 patterns for each of 17 scrutinee types (bool, void, int/float/string literals, tuples, structs incl. void field and generic, enums with positional/named/void payloads, option, nested option, result), plus cover lists, matches nested in arm bodies / scrutinees / task blocks;",
+ "C12": U("all arm lists up to length 2-3 (quick) / 2-4 (thorough) over 5-58 patterns for each of 21 scrutinee types (bool, void, int/float/string literals, tuples, structs incl. void field and generic, enums with positional/named/void payloads, option, nested option, result, option<void>, result<void, bool>, a tuple containing a struct, a struct containing a struct), plus cover lists, matches nested in arm bodies / scrutinees / task blocks;",
           "brute-force matcher over the finite value domain: an accepted match has an arm for every value (also at run time, every value fed to the compiled match); a match reported non-exhaustive has an unmatched value and every listed witness covers one.",
           "Bounded pattern depth 2 and arm-list length; verdicts are read per match from check_lsp diagnostics by byte range (cross-checked on every 40th case standalone).", "DESIGN.md §3 C12-C14", "model_checking",
           "exhaustive enumeration of (type, arm list) states and (arm list, value) transitions; the real checker's verdict and the compiled match compared with a brute-force matcher on every one"),
